@@ -173,6 +173,25 @@ std::vector<Field> fields(Bytes const& b)
         f.push_back({"width", 18, 4, false}); f.push_back({"height", 22, 4, false}); f.push_back({"planes", 26, 2, false}); f.push_back({"bpp", 28, 2, false});
         f.push_back({"compression", 30, 4, false}); f.push_back({"imagesize", 34, 4, false}); f.push_back({"clrused", 46, 4, false}); f.push_back({"clrimportant", 50, 4, false});
         f.push_back({"mask_r", 54, 4, false}); f.push_back({"mask_g", 58, 4, false}); f.push_back({"mask_b", 62, 4, false});
+        uint32_t comp = b.size() >= 34 ? get32le(b, 30) : 0;
+        if (comp == 1 || comp == 2)
+        {
+            // run-length stream: the two bytes of every packet (count / value or escape code) are fields
+            size_t off = get32le(b, 10); int k = 0; bool r4 = comp == 2;
+            while (off + 1 < b.size() && k < 20)
+            {
+                f.push_back({"rle" + std::to_string(k) + "_count", off, 1, false});
+                f.push_back({"rle" + std::to_string(k) + "_second", off + 1, 1, false});
+                unsigned c = b[off], v = b[off + 1];
+                off += 2; ++k;
+                if (c == 0)
+                {
+                    if (v == 1) break;
+                    if (v == 2) off += 2;
+                    else if (v >= 3) { size_t nb = r4 ? (v + 1) / 2 : v; off += nb + (nb & 1); }
+                }
+            }
+        }
     }
     return f;
 }
@@ -196,6 +215,8 @@ Outcome roundtrip(Json const& plan)
     gil::image_write_info<Tag> info;
     if (v == "rgb8") return RoundTrip<Tag, gil::rgb8_image_t, true>::run(plan, "bmp", info);
     if (v == "rgba8") return RoundTrip<Tag, gil::rgba8_image_t, true>::run(plan, "bmp", info);
+    if (v == "bgr8") return RoundTrip<Tag, gil::bgr8_image_t, true>::run(plan, "bmp", info);
+    if (v == "bgra8") return RoundTrip<Tag, gil::bgra8_image_t, true>::run(plan, "bmp", info);
     Outcome o; o.cls = "skipped:type"; return o;
 }
 
@@ -227,7 +248,7 @@ Format make_format()
     Format f;
     f.name = "bmp"; f.ext = "bmp";
     f.variants = g_variants();
-    f.write_types = {"rgb8", "rgba8"};
+    f.write_types = {"rgb8", "rgba8", "bgr8", "bgra8"};
     f.roundtrip = roundtrip; f.paths = paths;
     f.native_types = {"rgb8", "rgba8"};
     f.convert_types = {"gray8", "rgb8", "rgba8"};
